@@ -2,7 +2,7 @@
 ambient perturbation and prints {"<config>#<seed>": digest} as JSON on the last stdout line.
 
 usage: python -m vf.c07_child <mode> <seeds comma separated>
-mode: plain | perturb_a | perturb_b | prior_run | twice | reuse | trap | logger_none | logger_base | logger_saver | logger_peek | via_file"""
+mode: plain | perturb_a | perturb_b | prior_run | prior_namesake | twice | reuse | trap | logger_none | logger_base | logger_saver | logger_peek | via_file"""
 import copy
 import glob
 import hashlib
@@ -310,6 +310,30 @@ LOGGER = "rec"  # rec | none | base | saver
 VIA_FILE = None  # path: the configuration is written to this ONE file (rewritten for every run) and given as a path
 
 
+def namesakes():
+    """other user classes carrying the SAME names as the three user classes above and behaving differently (a class
+    redefined between two runs: a notebook cell run again, a factory building one class per sweep point)"""
+    class _Ev(UserEffectEvent):
+        def _nudge(self, k):
+            self.n += 1
+            self.target.change_fundamental_price(1.0 + (k + 1) * 1e-2)
+
+    class _Ag(FCNAgent):
+        def submit_orders(self, markets):
+            return []
+
+    class _Mk(Market):
+        pass
+    out = []
+    for c, n in ((_Mk, "ExtendedMarket"), (_Ag, "UserDefinedFCNAgent"), (_Ev, "UserEffectEvent")):
+        c.__name__ = c.__qualname__ = n
+        out.append(c)
+    return out
+
+
+USER_CLASSES = None  # None = the three module-level user classes
+
+
 def run_one(cfg, seed, settings_obj=None):
     """-> (digest of everything observable incl. every log record and callback, settings mutated?,
     digest of the end state only: comparable between runs with different loggers attached)"""
@@ -328,9 +352,8 @@ def run_one(cfg, seed, settings_obj=None):
         r = SequentialRunner(VIA_FILE, random.Random(seed), lg)
     else:
         r = SequentialRunner(settings, random.Random(seed), lg)
-    r.class_register(ExtendedMarket)
-    r.class_register(UserDefinedFCNAgent)
-    r.class_register(UserEffectEvent)
+    for c in (USER_CLASSES or (ExtendedMarket, UserDefinedFCNAgent, UserEffectEvent)):
+        r.class_register(c)
     r._setup()
     r._run()
     sim = r.simulator
@@ -417,6 +440,18 @@ def main():
     if mode == "prior_run":
         names = names[::-1]  # every run is preceded by different runs in the same process
         run_one(fam["two_groups"] if "two_groups" in fam else fam[names[0]], 77)
+    if mode == "prior_namesake":
+        # every configuration that names a user class was run before, in this process, by a runner that had registered
+        # DIFFERENT classes under those names
+        global USER_CLASSES
+        USER_CLASSES = namesakes()
+        for name in names:
+            if any(isinstance(v, dict) and v.get("class") in ("ExtendedMarket", "UserDefinedFCNAgent", "UserEffectEvent") for v in fam[name].values()):
+                try:
+                    run_one(fam[name], 5)
+                except Exception:  # noqa
+                    pass
+        USER_CLASSES = None
     for name in names:
         cfg = fam[name]
         for seed in seeds:
